@@ -140,6 +140,9 @@ def check_case(ctx, tr, case):
     ek = case['ens']
     cap = case['cap']
     kw = dict(imf_opts=io, envelope_opts=eo, extrema_opts=xo)
+    if case.get('sift_thresh') is not None:
+        kw['sift_thresh'] = case['sift_thresh']      # a sift threshold that actually ends decompositions: part of the members' configuration
+        ctx.count('calls_with_a_binding_sift_threshold')
     flip = ek['noise_mode'] == 'flip'
     nens, lvl = ek['nensembles'], ek['ensemble_noise']
     ctx.case(digest(x, kw, ek, cap, case['rng_seed'], case['kind']), lvl != 0 and nens >= 2)
@@ -301,6 +304,8 @@ def gen_case(rng):
                  'ensemble_noise': float(gens.pick(rng, [0.0, .05, .2, 2.0])), 'noise_mode': gens.pick(rng, ['single', 'flip'])},
          'cap': gens.pick(rng, [None, 1, 2, 3, 5]) if kind == 'ens' else int(rng.integers(1, 5)),
          'rng_seed': int(rng.integers(2 ** 31))}
+    if kind == 'ens' and rng.random() < .2:
+        c['sift_thresh'] = float(gens.pick(rng, [.05, .15, .3])) * float(np.abs(x).sum())
     if rng.random() < .3:
         c['ens']['verbose'] = gens.pick(rng, ['WARNING', 'CRITICAL', 'INFO'])      # a per-call verbosity: documented to change logging only
     return c
